@@ -9,6 +9,10 @@
 (*     (its other columns are those of its first line),                        *)
 (*   - a line without ID is a feature of its own (the database invents a name),*)
 (*   - Parent=<id> makes the feature a child of the feature with that ID.      *)
+(*   - ONLY the exact keys ID and Parent mean anything: other attributes, also  *)
+(*     ones whose key contains or ends in "id" / "parent" in any case           *)
+(*     (exon_id=, gene_ID=, Grandparent=, parent_type=, Name=), name nothing,   *)
+(*     wherever they stand in the column; the column is stored verbatim.        *)
 (* Features(file) below is that definition.  Loading appends Features(file)    *)
 (* to whatever the database holds: loading into a database that already has    *)
 (* records keeps them, loading the same file twice gives every feature twice   *)
@@ -22,7 +26,10 @@ CONSTANTS
     LineIds,        \* IDs a line may carry (NoId = no ID attribute)
     LineCoords,     \* <<first, last>> pairs (1-based closed) a line may have
     LineStrands,    \* "tied": strand follows the seqid; "free": both strands
-    Blocks          \* values of lines_per_block
+    Blocks,         \* values of lines_per_block
+    XFlags,         \* {FALSE} or BOOLEAN: may a line carry the file's extra attributes
+    Extras,         \* which extra attributes the file uses ("none", "exon_id", "gene_ID", ...)
+    Orders          \* "first": ID / Parent before the extra attributes, "last": after them
 
 VARIABLES last, nloads
 lvars == <<bag, last, nloads>>
@@ -34,7 +41,8 @@ ParentId == "a"                       \* the ID children refer to
 
 Bio(ln) == IF ln.parent = NoId THEN "gene" ELSE "CDS"
 Lines ==
-    {ln \in [seqid : Seqids, id : LineIds \cup {NoId}, parent : {NoId, ParentId}, c : LineCoords, strand : {"+", "-"}] :
+    {ln \in [seqid : Seqids, id : LineIds \cup {NoId}, parent : {NoId, ParentId}, c : LineCoords, strand : {"+", "-"},
+             x : XFlags] :
         LineStrands = "free" \/ ln.strand = (IF ln.seqid = CanonSeqid THEN "+" ELSE "-")}
 
 (* lines of one multi-line feature agree on everything but their position; a   *)
@@ -48,26 +56,47 @@ WellFormed(f) ==
 Files == {f \in UNION {[1..n -> Lines] : n \in 1..FileLen} : WellFormed(f)}
 Filters == {{}} \cup {{sq} : sq \in Seqids} \cup {Seqids}      \* {} = seqids not given
 
+(* the attribute column as <<key, value>> tokens (written key=value;key=value)  *)
+ExtraTokens(e) ==
+    CASE e = "exon_id"     -> << <<"exon_id", "E1">>, <<"rank", "1">> >>
+      [] e = "gene_ID"     -> << <<"gene_ID", "E1">> >>
+      [] e = "Grandparent" -> << <<"Grandparent", ParentId>> >>
+      [] e = "GrandParent" -> << <<"GrandParent", ParentId>> >>
+      [] e = "Name"        -> << <<"Name", "E1">>, <<"parent_type", ParentId>> >>
+      [] OTHER             -> <<>>
+OwnTokens(ln) ==
+    (IF ln.id # NoId THEN << <<"ID", ln.id>> >> ELSE <<>>) \o
+    (IF ln.parent # NoId THEN << <<"Parent", ln.parent>> >> ELSE <<>>)
+AttrTokens(ln, e, ord) ==
+    IF ~ln.x THEN OwnTokens(ln)
+    ELSE IF ord = "first" THEN OwnTokens(ln) \o ExtraTokens(e) ELSE ExtraTokens(e) \o OwnTokens(ln)
+(* the lines as the harness writes them *)
+Rendered(f, e, ord) ==
+    [i \in DOMAIN f |-> [seqid |-> f[i].seqid, biotype |-> Bio(f[i]), c |-> f[i].c, strand |-> f[i].strand,
+                          id |-> f[i].id, attrs |-> AttrTokens(f[i], e, ord)]]
+
 RECURSIVE AscSeq(_)
 AscSeq(S) == IF S = {} THEN <<>> ELSE LET m == SetMin(S) IN <<m>> \o AscSeq(S \ {m})
 
 Kept(f, filt) == SelectSeq(f, LAMBDA ln : filt = {} \/ ln.seqid \in filt)
 Starts(ls) == {i \in DOMAIN ls : ls[i].id = NoId \/ \A j \in 1..(i - 1) : ls[j].id # ls[i].id}
 Members(ls, i) == IF ls[i].id = NoId THEN {i} ELSE {j \in DOMAIN ls : ls[j].id = ls[i].id}
-Feature(ls, i) ==
+Feature(ls, i, e, ord) ==
     LET m == AscSeq(Members(ls, i)) IN
     [seqid |-> ls[i].seqid, biotype |-> Bio(ls[i]),
      name |-> IF ls[i].id = NoId THEN "unknown" ELSE ls[i].id,
-     parent |-> ls[i].parent, strand |-> ls[i].strand,
+     parent |-> ls[i].parent, strand |-> ls[i].strand, attrs |-> AttrTokens(ls[i], e, ord),
      spans |-> Normalise([k \in DOMAIN m |-> HalfOpen(ls[m[k]].c)])]
-Features(ls) == LET s == AscSeq(Starts(ls)) IN [k \in DOMAIN s |-> Feature(ls, s[k])]
+FeaturesX(ls, e, ord) == LET s == AscSeq(Starts(ls)) IN [k \in DOMAIN s |-> Feature(ls, s[k], e, ord)]
+Features(ls) == FeaturesX(ls, "none", "first")
 
 UserRecord == [seqid |-> CanonSeqid, biotype |-> "gene", name |-> "u1", parent |-> NoId,
-               strand |-> "+", spans |-> << <<0, 3>> >>]
+               strand |-> "+", attrs |-> <<>>, spans |-> << <<0, 3>> >>]
 
 LView(b) == [i \in DOMAIN b |->
                [seqid |-> b[i].seqid, biotype |-> b[i].biotype, name |-> b[i].name, parent |-> b[i].parent,
-                strand |-> b[i].strand, spans |-> b[i].spans, start |-> Start(b[i]), stop |-> Stop(b[i])]]
+                strand |-> b[i].strand, attrs |-> b[i].attrs, spans |-> b[i].spans,
+                start |-> Start(b[i]), stop |-> Stop(b[i])]]
 (* get_feature_children(name=ParentId): the records whose Parent is that ID *)
 Kids(b) == SelectSeq([i \in DOMAIN b |-> i], LAMBDA i : b[i].parent = ParentId)
 
@@ -78,7 +107,8 @@ LLog(act, args) ==
 
 (* the file and the filter of a behaviour are fixed in its initial state (so   *)
 (* that TLC explores the files in parallel); `last` holds them                *)
-LInit == bag = <<>> /\ nloads = 0 /\ last \in {<<f, filt>> : f \in Files, filt \in Filters}
+LInit == bag = <<>> /\ nloads = 0
+         /\ last \in {<<f, filt, e, ord>> : f \in Files, filt \in Filters, e \in Extras, ord \in Orders}
 
 (* a database that already holds a user-added record *)
 AddUser ==
@@ -88,11 +118,11 @@ AddUser ==
 
 (* db = load_annotations(path=<file>, seqids=filt, db=db, lines_per_block=blk); *)
 (* the second time: the same file, same filter, into the same database          *)
-LoadT(f, filt) == bag' = bag \o Features(Kept(f, filt))
+LoadT(f, filt, e, ord) == bag' = bag \o FeaturesX(Kept(f, filt), e, ord)
 Load(blk) ==
     /\ nloads < 2
-    /\ LoadT(last[1], last[2]) /\ nloads' = nloads + 1 /\ UNCHANGED last
-    /\ LLog("Load", <<last[1], last[2], blk>>)
+    /\ LoadT(last[1], last[2], last[3], last[4]) /\ nloads' = nloads + 1 /\ UNCHANGED last
+    /\ LLog("Load", <<Rendered(last[1], last[3], last[4]), last[2], blk>>)
 
 LNext == AddUser \/ \E blk \in Blocks : Load(blk)
 
@@ -106,7 +136,7 @@ NLines(fs) == LET RECURSIVE Sum(_)
 (* (the laws speak about all files, not about the state: they are evaluated    *)
 (* once, in the initial state)                                                 *)
 FirstLine == CHOOSE ln \in Lines : TRUE
-AtStart == bag = <<>> /\ nloads = 0 /\ last = << <<FirstLine>>, {} >>
+AtStart == bag = <<>> /\ nloads = 0 /\ last[1] = <<FirstLine>> /\ last[2] = {}
 (* every line is located in exactly one feature *)
 EveryLineOnce == AtStart => \A f \in Files : NLines(Features(f)) = Len(f)
 (* filtering by all sequences, or by none, keeps the file *)
@@ -121,5 +151,11 @@ IdsAreUnique ==
         (i # j /\ Features(f)[i].name # "unknown") => Features(f)[i].name # Features(f)[j].name
 LTypeOK == nloads \in 0..2 /\ Len(last[1]) \in 1..FileLen /\ last[2] \in Filters
 (* a load never touches what was there *)
+(* extra attributes never change which features a file denotes *)
+ExtrasAreInert ==
+    AtStart => \A f \in Files, e \in Extras, ord \in Orders :
+        LET a == FeaturesX(f, e, ord) b == Features(f) IN
+        /\ Len(a) = Len(b)
+        /\ \A i \in DOMAIN a : [a[i] EXCEPT !.attrs = <<>>] = [b[i] EXCEPT !.attrs = <<>>]
 LoadsAppend == [][Len(bag') >= Len(bag) /\ SubSeq(bag', 1, Len(bag)) = bag]_lvars
 =============================================================================
